@@ -461,6 +461,327 @@ static bool check_c07(const Plan &p, const RunResult &r, std::string &oracle, st
 }
 
 // ================================================================================================
+// Scenario: C15 urlencoded (direct streaming API, every single cut; and through the connection parser)
+// ================================================================================================
+
+static int ref_x2c(unsigned char a, unsigned char b) {
+    int d = (a >= 'A' ? ((a & 0xdf) - 'A') + 10 : (a - '0')); d *= 16; d += (b >= 'A' ? ((b & 0xdf) - 'A') + 10 : (b - '0')); return d & 0xff;
+}
+// the decoding half of the reference rule, per configuration (u-encoding off)
+static Bytes ref_urldecode(const Bytes &s, const Cfg &c) {
+    long inv = c.get("url_invalid", 0), plus = c.get("plusspace", 1), net = c.get("nul_enc_term", 0), nrt = c.get("nul_raw_term", 0);
+    Bytes o; size_t n = s.size(), i = 0;
+    while (i < n) {
+        unsigned char ch = (unsigned char) s[i];
+        if (ch == '%') {
+            int v = '%';
+            if (i + 2 < n) {
+                if (isxdigit((unsigned char) s[i + 1]) && isxdigit((unsigned char) s[i + 2])) { v = ref_x2c((unsigned char) s[i + 1], (unsigned char) s[i + 2]); i += 3; }
+                else if (inv == 1) { i++; continue; }
+                else if (inv == 0) { i++; }
+                else { v = ref_x2c((unsigned char) s[i + 1], (unsigned char) s[i + 2]); i += 3; }
+            } else { if (inv == 1) { i++; continue; } i++; }
+            if (v == 0 && net) return o;
+            o.push_back((char) v);
+        } else if (ch == '+') { o.push_back(plus ? ' ' : '+'); i++; }
+        else { if (ch == 0 && nrt) return o; o.push_back((char) ch); i++; }
+    }
+    return o;
+}
+// split on '&', each piece at its first '=', drop only a final empty piece, decode name and value
+static Dump ref_urlencoded(const Bytes &in, const Cfg &c) {
+    std::vector<std::pair<Bytes, Bytes>> pairs;
+    std::vector<Bytes> pieces; size_t a = 0;
+    for (size_t i = 0; i <= in.size(); i++) if (i == in.size() || in[i] == '&') { pieces.push_back(in.substr(a, i - a)); a = i + 1; }
+    if (!pieces.empty() && pieces.back().empty()) pieces.pop_back();
+    for (auto &pc : pieces) { size_t e = pc.find('='); if (e == std::string::npos) pairs.push_back(std::make_pair(pc, Bytes())); else pairs.push_back(std::make_pair(pc.substr(0, e), pc.substr(e + 1))); }
+    Dump d; d.push_back(std::make_pair("count", strfmt("%zu", pairs.size())));
+    for (size_t i = 0; i < pairs.size(); i++) { d.push_back(std::make_pair(strfmt("%zu.name", i), ref_urldecode(pairs[i].first, c))); d.push_back(std::make_pair(strfmt("%zu.value", i), ref_urldecode(pairs[i].second, c))); }
+    return d;
+}
+
+static void c15_plan(Rng &rng, Plan &p) {
+    p.prop = "C15";
+    p.cfg.set("wellformed", 1);
+    if (rng.coin()) p.cfg.set("url_invalid", (long) rng.below(3));
+    if (rng.coin()) p.cfg.set("plusspace", (long) rng.below(2));
+    if (rng.chance(1, 4)) p.cfg.set("nul_enc_term", 1);
+    if (rng.chance(1, 4)) p.cfg.set("nul_raw_term", 1);
+    if (rng.chance(1, 6)) p.cfg.set("u_decode", 1);   // differential half only (the reference does not model %u)
+    Bytes in;
+    int kind = (int) rng.below(4);
+    if (kind < 3) {
+        static const char ALPHA[] = {'a', '=', '&', '%', '+', '1', 0, 'b', 'f', 'u', 'G', ' ', '0'};
+        size_t n = (size_t) rng.range(0, kind == 0 ? 8 : 64);
+        for (size_t i = 0; i < n; i++) in.push_back(ALPHA[rng.below(sizeof ALPHA)]);
+    } else { size_t n = (size_t) rng.range(65, 2000); for (size_t i = 0; i < n; i++) in.push_back(rng.chance(1, 6) ? "=&%+"[rng.below(4)] : (char) rng.below(256)); }
+    if (rng.chance(1, 5)) {
+        // through the connection parser: POST body, Content-Length framing, random wire
+        p.scenario = "connp";
+        p.cfg.set("urlenc", 1); p.cfg.set("personality", (long) rng.below(10));
+        Script s; MsgSpec q; q.method = "POST"; q.target = "/id0/c15"; { HeaderSpec h; h.name = "Host"; h.value = "c15.example"; q.headers.push_back(h); }
+        { HeaderSpec h; h.name = "Content-Type"; h.value = "application/x-www-form-urlencoded"; q.headers.push_back(h); }
+        { HeaderSpec h; h.name = "Content-Length"; h.value = strfmt("%zu", in.size()); q.headers.push_back(h); }
+        q.framing = FR_CL; q.body = q.payload = in;
+        MsgSpec r; r.is_request = false; r.status = 200; r.reason = "OK"; r.framing = FR_CL; { HeaderSpec h; h.name = "Content-Length"; h.value = "0"; r.headers.push_back(h); }
+        s.req.push_back(q); s.res.push_back(r);
+        p.conns.resize(1); build_conn_from_script(rng, s, p.conns[0], false);
+        p.extra["urlenc.input"] = in;
+        ConnPlan &cp = p.conns[0];
+        std::vector<Extent> m0, m1; for (auto &x : cp.xchg) { m0.push_back(x.req); m1.push_back(x.res); }
+        static const size_t MEANS[] = {1, 2, 3, 5, 8, 16, 64};
+        auto c0 = choose_cuts(rng, cp.stream[0], m0, (int) rng.below(ST_ONECUT), MEANS[rng.below(7)]);
+        std::vector<size_t> c1;
+        skeleton_ops(rng, cp, 0, c0, c1, p.ops);
+        return;
+    }
+    p.scenario = "direct";
+    p.conns.resize(1); p.conns[0].stream[0] = in;
+    // the explicit multi-cut schedule of this plan (every single cut is always tried in addition)
+    size_t pos = 0; size_t mean = (size_t) rng.range(1, 9);
+    while (pos < in.size()) { size_t n = std::min(in.size() - pos, rng.geom(mean)); Op op; op.kind = 'Q'; op.n = (long) n; p.ops.push_back(op); pos += n; }
+}
+
+static bool dumps_equal(const Dump &a, const Dump &b, std::string &key) {
+    std::string d = dump_first_diff(a, b, false); key = d; return d.empty();
+}
+
+static void eval_c15(const Plan &p, Verdict &v, Agg *agg) {
+    if (p.scenario.compare(0, 5, "connp") == 0) {
+        RunResult r; execute_plan(p, r); v.executions++; v.sig = r.behaviour_sig; v.hash = r.hash; v.nontrivial = r.st.tx_completed >= 1 && r.st.cuts > 0; if (agg) agg->add_run(r);
+        for (auto &x : r.viol) if (x.prop == "C01") { v.violated = true; v.oracle = "C15.via." + x.oracle; v.detail = x.detail; return; }
+        auto it = p.extra.find("urlenc.input"); if (it == p.extra.end() || r.txs.empty()) return;
+        if (p.cfg.get("u_decode", 0)) return;
+        Dump ref = ref_urlencoded(it->second, p.cfg);
+        // body parameters of the transaction, in order
+        const TxRec &t = r.txs[0]; Dump got; size_t k = 0;
+        for (size_t i = 0;; i++) {
+            const Bytes *src = dump_get(t.dump, strfmt("req.param.%zu.source", i)); if (!src) break;
+            if (*src != "3") continue;
+            got.push_back(std::make_pair(strfmt("%zu.name", k), *dump_get(t.dump, strfmt("req.param.%zu.name", i)))); got.push_back(std::make_pair(strfmt("%zu.value", k), *dump_get(t.dump, strfmt("req.param.%zu.value", i)))); k++;
+        }
+        got.insert(got.begin(), std::make_pair(std::string("count"), strfmt("%zu", k)));
+        std::string key; if (!dumps_equal(ref, got, key)) { for (auto &ch : key) if (isdigit((unsigned char) ch)) ch = 'N'; v.violated = true; v.oracle = "C15.connp_vs_reference." + key; v.detail = strfmt("input '%s'", esc_encode(it->second.substr(0, 120)).c_str()); }
+        return;
+    }
+    const Bytes &in = p.conns[0].stream[0];
+    std::vector<Violation> viol; Dump whole, var;
+    std::vector<size_t> one; one.push_back(in.size());
+    run_urlenp_direct(p.cfg, in, one, whole, viol); v.executions++;
+    Fnv sig; for (auto &kv : whole) { sig.str(kv.first); sig.str(kv.second); } v.sig = sig.h; v.hash = sig.h; v.nontrivial = in.size() > 1;
+    auto fail = [&](const std::string &o, const std::string &d) { v.violated = true; v.oracle = o; v.detail = d; };
+    if (!viol.empty()) { fail(viol[0].oracle, viol[0].detail); return; }
+    if (!p.cfg.get("u_decode", 0)) {
+        Dump ref = ref_urlencoded(in, p.cfg); Dump w2 = whole; if (!w2.empty() && w2.back().first == "flags") w2.pop_back();
+        std::string key; if (!dumps_equal(ref, w2, key)) { for (auto &ch : key) if (isdigit((unsigned char) ch)) ch = 'N'; fail("C15.whole_vs_reference." + key, strfmt("input '%s'", esc_encode(in.substr(0, 120)).c_str())); return; }
+    }
+    // every single cut (exhaustive for this string)
+    size_t limit = in.size() <= 80 ? in.size() : 0;
+    std::vector<size_t> cuts; for (size_t c = 1; c < limit; c++) cuts.push_back(c);
+    if (!limit && in.size() > 1) { Rng r(p.seed ^ 0x5151); for (int i = 0; i < 24; i++) cuts.push_back(1 + (size_t) r.below(in.size() - 1)); }
+    for (size_t c : cuts) {
+        std::vector<size_t> ch; ch.push_back(c);
+        run_urlenp_direct(p.cfg, in, ch, var, viol); v.executions++;
+        if (!viol.empty()) { fail(viol[0].oracle, viol[0].detail); return; }
+        std::string key; if (!dumps_equal(whole, var, key)) { for (auto &chh : key) if (isdigit((unsigned char) chh)) chh = 'N'; fail("C15.single_cut_changes_result." + key, strfmt("cut at %zu of '%s'", c, esc_encode(in.substr(0, 120)).c_str())); return; }
+        if (agg) agg->inc("cuts");
+    }
+    std::vector<size_t> ch; for (auto &op : p.ops) ch.push_back((size_t) op.n);
+    if (ch.size() > 1) {
+        run_urlenp_direct(p.cfg, in, ch, var, viol); v.executions++;
+        if (!viol.empty()) { fail(viol[0].oracle, viol[0].detail); return; }
+        std::string key; if (!dumps_equal(whole, var, key)) { for (auto &chh : key) if (isdigit((unsigned char) chh)) chh = 'N'; fail("C15.multi_cut_changes_result." + key, strfmt("%zu chunks of '%s'", ch.size(), esc_encode(in.substr(0, 120)).c_str())); return; }
+        if (agg) agg->inc("cuts", ch.size() - 1);
+    }
+    if (agg) { agg->executions += (uint64_t) v.executions; agg->inc("c15.direct_strings"); }
+}
+
+// ================================================================================================
+// Scenario: C14 multipart (direct streaming API with every single cut; and through the connection parser)
+// ================================================================================================
+
+struct PartSpec { Bytes name, filename, ctype, content; bool is_file = false; };
+
+static Bytes quote_cd(const Bytes &s) { Bytes o; for (char c : s) { if (c == '"' || c == '\\') o.push_back('\\'); o.push_back(c); } return o; }
+
+static void c14_build(Rng &rng, Bytes &content_type, Bytes &body, std::vector<PartSpec> &parts, bool &lf_only) {
+    static const char BCH[] = "abcdefghijklmnopqrstuvwxyzABCDEFGHIJKLMNOPQRSTUVWXYZ0123456789-";
+    std::string boundary;
+    switch (rng.below(6)) {
+        case 0: boundary = "a"; break;
+        case 1: boundary = "--"; break;
+        case 2: boundary = "boundary"; break;
+        case 3: boundary = "---------------------------41184676334"; break;
+        case 4: boundary = "abab"; break;   // a prefix of itself repeated
+        default: { size_t n = (size_t) rng.range(1, 70); for (size_t i = 0; i < n; i++) boundary.push_back(BCH[rng.below(sizeof BCH - 1)]); }
+    }
+    lf_only = rng.chance(1, 8);
+    std::string eol = lf_only ? "\n" : "\r\n";
+    content_type = "multipart/form-data; boundary=" + boundary;
+    int n = (int) rng.range(0, 8); if (rng.chance(1, 2)) n = (int) rng.range(1, 3);
+    parts.clear();
+    static const char *NEAR[] = {"\r", "\n", "\r\n", "--", "\r\n--", "\r\n-", "-", "\r\r\n", "\n\r", "\r\n\r\n"};
+    for (int i = 0; i < n; i++) {
+        PartSpec ps;
+        ps.name = "f" + strfmt("%d", i); if (rng.chance(1, 4)) ps.name += "\"q\\x"; if (rng.chance(1, 6)) ps.name += " sp;=";
+        ps.is_file = rng.chance(1, 3);
+        if (ps.is_file) { ps.filename = "file" + strfmt("%d", i) + ".bin"; if (rng.chance(1, 4)) ps.filename += "\\\""; if (rng.chance(1, 3)) ps.ctype = rng.coin() ? "application/octet-stream" : "text/plain"; }
+        int pieces = (int) rng.range(0, 5);
+        for (int k = 0; k < pieces; k++) {
+            switch (rng.below(6)) {
+                case 0: ps.content += NEAR[rng.below(sizeof NEAR / sizeof *NEAR)]; break;
+                case 1: ps.content += "--" + boundary.substr(0, boundary.size() - (boundary.size() > 1 ? 1 : 0)); break;           // boundary minus one char
+                case 2: ps.content += "\r\n--" + boundary.substr(0, (size_t) rng.below(boundary.size() + 1)); if (ps.content.size() >= 4 + boundary.size() && ps.content.compare(ps.content.size() - 4 - boundary.size(), std::string::npos, "\r\n--" + boundary) == 0) ps.content += "x"; break;
+                case 3: { size_t m = (size_t) rng.range(1, 30); for (size_t j = 0; j < m; j++) ps.content.push_back((char) rng.below(256)); break; }
+                case 4: ps.content += "--" + boundary + "x"; break;   // looks like a boundary but is not at a line start... unless preceded by a line end
+                default: ps.content += "value" + strfmt("%d", (int) rng.below(100));
+            }
+        }
+        // the content must not contain a real delimiter: line end + "--" + boundary
+        for (;;) { size_t at = ps.content.find("\n--" + boundary); if (at == std::string::npos) break; ps.content[at + 1] = '+'; }
+        if (ps.content.compare(0, 2 + boundary.size(), "--" + boundary) == 0) ps.content[0] = '+';
+        if (lf_only) { for (auto &ch : ps.content) if (ch == '\r') ch = 'r'; }   // with LF-only line ends a CR before LF would be ambiguous
+        parts.push_back(ps);
+    }
+    body.clear();
+    if (rng.chance(1, 5)) body += "preamble text" + eol;
+    for (auto &ps : parts) {
+        body += "--" + boundary + eol;
+        body += "Content-Disposition: form-data; name=\"" + quote_cd(ps.name) + "\"";
+        if (ps.is_file) body += "; filename=\"" + quote_cd(ps.filename) + "\"";
+        body += eol;
+        if (!ps.ctype.empty()) body += "Content-Type: " + ps.ctype + eol;
+        body += eol;
+        body += ps.content + eol;
+    }
+    body += "--" + boundary + "--" + eol;
+    if (rng.chance(1, 6)) body += "epilogue";
+}
+
+static void c14_plan(Rng &rng, Plan &p) {
+    p.prop = "C14";
+    p.cfg.set("wellformed", 1);
+    Bytes ct, body; std::vector<PartSpec> parts; bool lf;
+    c14_build(rng, ct, body, parts, lf);
+    p.extra["mpart.ct"] = ct;
+    p.cfg.set("c14_parts", (long) parts.size());
+    for (size_t i = 0; i < parts.size(); i++) {
+        p.extra[strfmt("mpart.%zu.name", i)] = parts[i].name; p.extra[strfmt("mpart.%zu.content", i)] = parts[i].content;
+        p.extra[strfmt("mpart.%zu.isfile", i)] = parts[i].is_file ? "1" : "0";
+        if (parts[i].is_file) { p.extra[strfmt("mpart.%zu.filename", i)] = parts[i].filename; p.extra[strfmt("mpart.%zu.ctype", i)] = parts[i].ctype; }
+    }
+    if (rng.chance(1, 5)) p.cfg.set("extract_files", 1);
+    if (rng.chance(1, 4)) {
+        p.scenario = "connp";
+        p.cfg.set("mpart", 1); p.cfg.set("personality", (long) rng.below(10));
+        Script s; MsgSpec q; q.method = "POST"; q.target = "/id0/c14"; { HeaderSpec h; h.name = "Host"; h.value = "c14.example"; q.headers.push_back(h); }
+        { HeaderSpec h; h.name = "Content-Type"; h.value = ct; q.headers.push_back(h); }
+        q.body = q.payload = body;
+        if (rng.coin()) { q.framing = FR_CL; HeaderSpec h; h.name = "Content-Length"; h.value = strfmt("%zu", body.size()); q.headers.push_back(h); }
+        else { q.framing = FR_CHUNKED; HeaderSpec h; h.name = "Transfer-Encoding"; h.value = "chunked"; q.headers.push_back(h); size_t left = body.size(); while (left) { size_t c = std::min<size_t>(left, (size_t) rng.range(1, 200)); q.chunk_sizes.push_back(c); left -= c; } }
+        MsgSpec r; r.is_request = false; r.status = 200; r.reason = "OK"; r.framing = FR_CL; { HeaderSpec h; h.name = "Content-Length"; h.value = "0"; r.headers.push_back(h); }
+        s.req.push_back(q); s.res.push_back(r);
+        p.conns.resize(1); build_conn_from_script(rng, s, p.conns[0], false);
+        ConnPlan &cp = p.conns[0];
+        std::vector<Extent> m0, m1; for (auto &x : cp.xchg) { m0.push_back(x.req); m1.push_back(x.res); }
+        static const size_t MEANS[] = {1, 2, 3, 5, 8, 16, 64};
+        auto c0 = choose_cuts(rng, cp.stream[0], m0, (int) rng.below(ST_ONECUT), MEANS[rng.below(7)]);
+        std::vector<size_t> c1; skeleton_ops(rng, cp, 0, c0, c1, p.ops);
+        return;
+    }
+    p.scenario = "direct";
+    p.conns.resize(1); p.conns[0].stream[0] = body;
+    size_t pos = 0; size_t mean = (size_t) rng.range(1, 12);
+    while (pos < body.size()) { size_t n = std::min(body.size() - pos, rng.geom(mean)); Op op; op.kind = 'Q'; op.n = (long) n; p.ops.push_back(op); pos += n; }
+}
+
+// ground truth: the real parts (type TEXT/FILE), in order, are the parts the actor encoded
+static bool c14_truth(const Plan &p, const Dump &d, const char *pfx, std::string &oracle, std::string &detail) {
+    size_t want = (size_t) p.cfg.get("c14_parts", 0);
+    std::string P = pfx;
+    const Bytes *cnt = dump_get(d, P + "count"); size_t n = cnt ? (size_t) atol(cnt->c_str()) : 0;
+    size_t k = 0;
+    for (size_t i = 0; i < n; i++) {
+        const Bytes *ty = dump_get(d, P + strfmt("%zu.type", i)); int t = ty ? atoi(ty->c_str()) : 0;
+        if (t == 3 || t == 4) continue;   // preamble / epilogue
+        if (k >= want) { oracle = "C14.extra_part"; detail = strfmt("part %zu reported beyond the %zu encoded", i, want); return false; }
+        auto ex = [&](const std::string &key) -> const Bytes & { static Bytes none; auto it = p.extra.find(strfmt("mpart.%zu.", k) + key); return it == p.extra.end() ? none : it->second; };
+        bool isfile = ex("isfile") == "1";
+        if (t != (isfile ? 2 : 1)) { oracle = "C14.part_type"; detail = strfmt("part %zu type %d, encoded as %s", k, t, isfile ? "file" : "text"); return false; }
+        const Bytes *nm = dump_get(d, P + strfmt("%zu.name", i));
+        if (!nm || *nm != ex("name")) { oracle = "C14.part_name"; detail = strfmt("part %zu name '%s' encoded '%s'", k, nm ? esc_encode(*nm).c_str() : "-", esc_encode(ex("name")).c_str()); return false; }
+        if (isfile) {
+            const Bytes *fn = dump_get(d, P + strfmt("%zu.filename", i)), *fd = dump_get(d, P + strfmt("%zu.filedata", i)), *fl = dump_get(d, P + strfmt("%zu.filelen", i)), *ct = dump_get(d, P + strfmt("%zu.ct", i));
+            if (!fn || *fn != ex("filename")) { oracle = "C14.file_name"; detail = strfmt("part %zu", k); return false; }
+            if (fd && *fd != ex("content")) { oracle = "C14.file_bytes"; detail = strfmt("part %zu: %zu bytes encoded, %zu delivered", k, ex("content").size(), fd->size()); return false; }
+            if (fl && (size_t) atol(fl->c_str()) != ex("content").size()) { oracle = "C14.file_len"; detail = strfmt("part %zu: len %s, encoded %zu", k, fl->c_str(), ex("content").size()); return false; }
+            if (!ex("ctype").empty() && (!ct || *ct != ex("ctype"))) { oracle = "C14.part_content_type"; detail = strfmt("part %zu", k); return false; }
+            const Bytes *tf = dump_get(d, P + strfmt("%zu.tmpfile", i));
+            if (tf && *tf != ex("content")) { oracle = "C14.extracted_file_bytes"; detail = strfmt("part %zu: %zu bytes encoded, %zu in the extracted file", k, ex("content").size(), tf->size()); return false; }
+        } else {
+            const Bytes *val = dump_get(d, P + strfmt("%zu.value", i));
+            bool empty_ok = ex("content").empty() && val && *val == "<null>";   // an empty part may be reported without a value object
+            if (!empty_ok && (!val || *val != ex("content"))) { oracle = "C14.part_value"; detail = strfmt("part %zu: encoded '%s' reported '%s'", k, esc_encode(ex("content").substr(0, 60)).c_str(), val ? esc_encode(val->substr(0, 60)).c_str() : "-"); return false; }
+        }
+        k++;
+    }
+    if (k != want) { oracle = "C14.part_count"; detail = strfmt("%zu parts encoded, %zu reported", want, k); return false; }
+    return true;
+}
+
+static void eval_c14(const Plan &p, Verdict &v, Agg *agg) {
+    auto fail = [&](const std::string &o, const std::string &d) { v.violated = true; v.oracle = o; v.detail = d; };
+    if (p.scenario.compare(0, 5, "connp") == 0) {
+        Plan ref = reference_schedule(p);
+        RunResult a, b; execute_plan(ref, a); v.executions++; if (agg) agg->add_run(a);
+        execute_plan(p, b); v.executions++; v.sig = b.behaviour_sig; v.hash = b.hash; v.nontrivial = b.st.tx_completed >= 1 && b.st.cuts > 0; if (agg) agg->add_run(b);
+        for (auto *r : {&a, &b}) for (auto &x : r->viol) if (x.prop == "C01") { fail("C14.via." + x.oracle, x.detail); return; }
+        std::string o, d;
+        if (!compare_runs_c03(a, b, o, d)) { fail("C14.chunking." + o.substr(4), d); return; }
+        if (b.txs.empty()) return;
+        const TxRec &t = b.txs[0];
+        if (!c14_truth(p, t.dump, "mpart.", o, d)) { fail(o + ".connp", d); return; }
+        // text parts become body parameters with the same names and values
+        size_t k = 0, want = (size_t) p.cfg.get("c14_parts", 0);
+        for (size_t i = 0; i < want; i++) {
+            if (p.extra.at(strfmt("mpart.%zu.isfile", i)) == "1") continue;
+            const Bytes *nm = nullptr, *val = nullptr;
+            for (size_t j = k;; j++) { const Bytes *src = dump_get(t.dump, strfmt("req.param.%zu.source", j)); if (!src) break; const Bytes *ps = dump_get(t.dump, strfmt("req.param.%zu.parser", j)); if (*src == "3" && ps && *ps == "1") { nm = dump_get(t.dump, strfmt("req.param.%zu.name", j)); val = dump_get(t.dump, strfmt("req.param.%zu.value", j)); k = j + 1; break; } }
+            const Bytes &wantv = p.extra.at(strfmt("mpart.%zu.content", i));
+            bool vok = val && (*val == wantv || (wantv.empty() && *val == "<null>"));
+            if (!nm || !vok || *nm != p.extra.at(strfmt("mpart.%zu.name", i))) { fail("C14.text_part_not_a_body_parameter", strfmt("part %zu", i)); return; }
+        }
+        return;
+    }
+    const Bytes &body = p.conns[0].stream[0]; const Bytes &ct = p.extra.at("mpart.ct");
+    std::vector<Violation> viol; Dump whole, var;
+    std::vector<size_t> one; one.push_back(body.size());
+    run_mpart_direct(p.cfg, ct, body, one, whole, viol); v.executions++;
+    Fnv sig; for (auto &kv : whole) { sig.str(kv.first); sig.str(kv.second); } v.sig = sig.h; v.hash = sig.h; v.nontrivial = p.cfg.get("c14_parts", 0) > 0;
+    if (!viol.empty()) { fail(viol[0].oracle, viol[0].detail); return; }
+    std::string o, d;
+    if (!c14_truth(p, whole, "", o, d)) { fail(o, d); return; }
+    size_t limit = body.size() <= 1024 ? body.size() : 0;
+    std::vector<size_t> cuts; for (size_t c = 1; c < limit; c++) cuts.push_back(c);
+    if (!limit && body.size() > 1) { Rng r(p.seed ^ 0x1414); for (int i = 0; i < 64; i++) cuts.push_back(1 + (size_t) r.below(body.size() - 1)); }
+    for (size_t c : cuts) {
+        std::vector<size_t> ch; ch.push_back(c);
+        run_mpart_direct(p.cfg, ct, body, ch, var, viol); v.executions++;
+        if (!viol.empty()) { fail(viol[0].oracle, viol[0].detail); return; }
+        std::string key; if (!dumps_equal(whole, var, key)) { const Bytes *x = dump_get(whole, key), *y = dump_get(var, key); for (auto &chh : key) if (isdigit((unsigned char) chh)) chh = 'N'; fail("C14.single_cut_changes_result." + key, strfmt("cut at %zu of %zu: whole='%s' cut='%s'", c, body.size(), x ? esc_encode(x->substr(0, 40)).c_str() : "-", y ? esc_encode(y->substr(0, 40)).c_str() : "-")); return; }
+        if (agg) agg->inc("cuts");
+    }
+    std::vector<size_t> ch; for (auto &op : p.ops) ch.push_back((size_t) op.n);
+    if (ch.size() > 1) {
+        run_mpart_direct(p.cfg, ct, body, ch, var, viol); v.executions++;
+        if (!viol.empty()) { fail(viol[0].oracle, viol[0].detail); return; }
+        std::string key; if (!dumps_equal(whole, var, key)) { for (auto &chh : key) if (isdigit((unsigned char) chh)) chh = 'N'; fail("C14.multi_cut_changes_result." + key, strfmt("%zu chunks", ch.size())); return; }
+        if (agg) agg->inc("cuts", ch.size() - 1);
+    }
+    if (agg) { agg->executions += (uint64_t) v.executions; agg->inc("c14.direct_bodies"); }
+}
+
+// ================================================================================================
 // Scenario: C11 ambiguity indicators (trigger applied by the actor => flag must be set)
 // ================================================================================================
 
@@ -728,7 +1049,7 @@ std::string plan_trigger(const Plan &p) {
 }
 
 bool is_known_property(const std::string &prop) {
-    static const char *P[] = {"C01", "C02", "C03", "C04", "C05", "C06", "C07", "C09", "C10", "C11", "C16"};
+    static const char *P[] = {"C01", "C02", "C03", "C04", "C05", "C06", "C07", "C09", "C10", "C11", "C14", "C15", "C16"};
     for (auto q : P) if (prop == q) return true;
     return false;
 }
@@ -742,6 +1063,8 @@ bool generate_plan(const std::string &prop, uint64_t seed, Plan &out) {
     else if (prop == "C02" || prop == "C04" || prop == "C06") wf_plan(rng, out, prop);
     else if (prop == "C11") c11_plan(rng, out, seed);
     else if (prop == "C16") c16_plan(rng, out);
+    else if (prop == "C15") c15_plan(rng, out);
+    else if (prop == "C14") c14_plan(rng, out);
     else if (prop == "C07") { if (seed % 4 == 3) { chaos_plan(rng, out, "C07"); out.cfg.set("res_decomp", 1); if (rng.coin()) { static const long B[] = {1024, 4096, 65536}; out.cfg.set("bomb_limit", B[rng.below(3)]); } } else c07_plan(rng, out, seed / 4); }
     else return false;
     return true;
@@ -819,6 +1142,8 @@ Verdict evaluate_plan(const Plan &p, Agg *agg) {
         if (!check_c11(p, r, o, d, agg)) { v.violated = true; v.oracle = o; v.detail = d; }
         return v;
     }
+    if (prop == "C15") { eval_c15(p, v, agg); return v; }
+    if (prop == "C14") { eval_c14(p, v, agg); return v; }
     if (prop == "C07") {
         RunResult r; execute_plan(p, r); note_run(r, p, v, agg);
         first_violation_of(r, "C01", v);
